@@ -36,7 +36,13 @@ Monitors / oracles (every one counts its evaluations):
                   range attributes), evaluated every time the real code calls it
 P_trace (C11's subject) is decided per phase with the closed-form existence interval and
 branch; a hopped table is "inadmissible(P_trace)" and nothing of that phase is judged; a
-table on its branch but off the minimum only loses the closed-form oracles.  A phase whose
+table on its branch but off the minimum only loses the closed-form oracles.  A table whose
+rows are at the minimum but whose stored free energy is not the potential at the tabulated
+point stays fully judged (p = -V(minimum) is C10's own statement; the noise term of the
+tolerance is then taken from the rows, not from the stored column).
+Requested range ends (route direct) are deliberately placed next to the tracer's steps: the
+last RK45 step onto the end is then a remainder of 1e-5..8e-3 dT, which tracePhase merges
+into the previous row (abscissa of the end, everything else must be of the end too).  A phase whose
 closed-form EOS is unphysical at a range end (dp <= 0 or cs^2 outside (0.01,1)) is
 inadmissible too (mu = 1 + 1/cs^2 presupposes it).  Points where a*T^mu is formed from
 factors that over/underflow individually ((|mu|+2) max|ln T| > 600; python's float pow
@@ -71,6 +77,11 @@ RULE = ("zoo potentials poly1/poly2/bag1 with random parameters (physical at T_n
         "0<cs^2<1 in both phases), random unit factor 1e-2..1e2, random T_n; route 'direct' "
         "(explicit ranges inside the existence interval or past a spinodal, 20 % with both ends "
         "an integer number of steps from T_n ('round numbers'), dT 4e-4..4e-3 T_n, "
+        "70 % of the 'inside' ends of every phase placed relative to the tracer's own steps "
+        "(50 % a remainder r dT, r log-uniform in [1e-5, 8e-3], beyond a step -- the window in "
+        "which tracePhase merges the last step into the previous row --, 10 % exactly on a "
+        "step, 10 % r dT before one; step positions from a scratch trace of T_n -+ 14 dT, "
+        "achievement read off the finished table), "
         "rTol in {1e-5,1e-6,1e-8}, paranoid on/off, first step None/0.1 dT, exact or "
         "1%-perturbed phase guesses) or 'manager' (phaseTracerTol in {1e-5,1e-6,1e-7}, tmin/tmax "
         "{0.8,0.9}/{1.2,1.1}); temperatures as in the module docstring.  Non-trivial: a "
@@ -100,17 +111,25 @@ FLOORS = {
               "mon": {"identities": 75000, "deriv_inside": 9000, "deriv_outside": 7500,
                       "continuity": 800, "exact_p": 9000, "exact_dp": 9000, "alpha_exact": 200,
                       "alpha_identity": 1000, "contract_setExtrapolate": 40,
-                      "boundary_evaluations": 4000},
+                      "boundary_evaluations": 4000,
+                      # requested ends placed next to a tracer step *and* found so in the
+                      # finished table of a judged phase (seeds 0..4: 33..45 / 7..13 / 4..10)
+                      "ends_placed_beyond": 18, "ends_placed_on": 3, "ends_placed_below": 2},
               "cls": {"route:direct": 20, "route:manager": 16, "P_trace:ok": 35,
                       "fam:poly1": 12, "fam:poly2": 12, "fam:bag1": 12,
+                      "end-placed:beyond:high:hi": 3, "end-placed:beyond:high:lo": 3,
+                      "end-placed:beyond:low:hi": 3, "end-placed:beyond:low:lo": 3,
                       "boundary:high:TMin": 30, "boundary:high:TMax": 30,
                       "boundary:low:TMin": 30, "boundary:low:TMax": 30}},
     "thorough": {"distinct_nontrivial": 3500,
                  "mon": {"identities": 2500000, "deriv_inside": 400000, "deriv_outside": 250000,
                          "continuity": 9000, "exact_p": 400000, "exact_dp": 400000,
                          "alpha_exact": 2000, "alpha_identity": 10000,
-                         "contract_setExtrapolate": 400, "boundary_evaluations": 40000},
+                         "contract_setExtrapolate": 400, "boundary_evaluations": 40000,
+                         "ends_placed_beyond": 250, "ends_placed_on": 40, "ends_placed_below": 30},
                  "cls": {"route:direct": 300, "route:manager": 180, "P_trace:ok": 450,
+                         "end-placed:beyond:high:hi": 40, "end-placed:beyond:high:lo": 40,
+                         "end-placed:beyond:low:hi": 40, "end-placed:beyond:low:lo": 40,
                          "fam:poly1": 150, "fam:poly2": 150, "fam:bag1": 150,
                          "boundary:high:TMin": 400, "boundary:high:TMax": 400,
                          "boundary:low:TMin": 400, "boundary:low:TMax": 400}},
@@ -213,8 +232,29 @@ def _physical_window(pot, phase, Tn):
     return out[0], out[1]
 
 
+PLACE_R = (1e-5, 8e-3)      # remainder beyond a tracer step, in units of dT (merge window 1e-2)
+
+
+def _place_spec(rng):
+    """Where a requested range end is put relative to the tracer's steps (T_n -+ ramp-up
+    steps -+ k dT): 'beyond' = r dT past a step (RK45's last step onto the end is a remainder
+    r dT, which tracePhase merges into the previous row), 'on' = exactly on a step, 'below' =
+    r dT before a step (last step (1-r) dT), None = wherever _direct_ranges put it."""
+    u = rng.random()
+    r = float(10 ** rng.uniform(math.log10(PLACE_R[0]), math.log10(PLACE_R[1])))
+    if u < 0.5:
+        return {"kind": "beyond", "r": r, "back": int(rng.integers(0, 3))}
+    if u < 0.6:
+        return {"kind": "on", "r": 0.0, "back": int(rng.integers(0, 3))}
+    if u < 0.7:
+        return {"kind": "below", "r": r, "back": int(rng.integers(0, 3))}
+    return None
+
+
 def generate(tier, seed):
     rng = np.random.default_rng(10000 + seed)
+    # separate stream: end placement does not disturb the population of models and ranges
+    rng_e = np.random.default_rng(10500 + seed)
     n_direct, n_manager = (30, 24) if tier == "quick" else (420, 261)
     nT = {"log": 110, "in": 110} if tier == "quick" else {"log": 400, "in": 500}
     fams = ["poly1", "poly2", "bag1"]
@@ -234,6 +274,10 @@ def generate(tier, seed):
                              # here as a fraction of that phase's dT
                              "firstStepFrac": None if rng.random() < 0.7 else 0.1,
                              "twice": bool(rng.random() < 0.5)}
+            case["trace"]["place"] = {
+                ph: {side: (_place_spec(rng_e) if case["trace"]["ranges"][ph]["mode"][j] == "inside"
+                            else None) for j, side in enumerate(("lo", "hi"))}
+                for ph in ("high", "low")}
         else:
             j = int(rng.integers(3))
             case["cfg"] = {"phaseTracerTol": float(rng.choice([1e-6, 1e-6, 1e-5, 1e-7])),
@@ -279,12 +323,101 @@ def build_direct(case):
     pot.configureDerivatives(scales)
     th = WallGo.Thermodynamics(pot, Tn, WallGo.Fields(lo), WallGo.Fields(hi))
     tr = case["trace"]
-    for phase, fe in (("high", th.freeEnergyHigh), ("low", th.freeEnergyLow)):
+    placed = {}
+    for phase, fe, guess in (("high", th.freeEnergyHigh, hi), ("low", th.freeEnergyLow, lo)):
         r = tr["ranges"][phase]
         first = None if tr["firstStepFrac"] is None else tr["firstStepFrac"] * r["dT"] * s
-        fe.tracePhase(r["Tlo"] * s, r["Thi"] * s, r["dT"] * s, rTol=tr["rTol"],
+        ends = [r["Tlo"] * s, r["Thi"] * s]
+        want = (tr.get("place") or {}).get(phase) or {}
+        if any(want.get(side) for side in ("lo", "hi")):
+            ends, placed[phase] = _place_ends(pot, Tn, guess, ends, r["dT"] * s, tr, first, want)
+        fe.tracePhase(ends[0], ends[1], r["dT"] * s, rTol=tr["rTol"],
                       paranoid=tr["paranoid"], phaseTracerFirstStep=first)
-    return pot, th, Tn, tr["rTol"]
+        for side, pl in (placed.get(phase) or {}).items():
+            # what the finished table says about the last step onto this end
+            X = np.asarray(fe._interpolationPoints, dtype=float)
+            gap = (X[1] - X[0]) if side == "lo" else (X[-1] - X[-2])
+            end_ok = (X[0] == ends[0]) if side == "lo" else (X[-1] == ends[1])
+            pl["last_gap_over_dT_minus_1"] = float(gap / (r["dT"] * s) - 1.0)
+            pl["table_reaches_end"] = bool(end_ok)
+    return pot, th, Tn, tr["rTol"], placed
+
+
+class _StepLog:
+    """Swaps scipy.integrate.RK45 (resolved by WallGo.freeEnergy at call time) for a
+    subclass that logs the temperature after every step: {integration index: [t, ...]}."""
+
+    def __enter__(self):
+        import scipy.integrate as si
+        self.si, self.base, self.steps, log = si, si.RK45, {}, self
+
+        class LoggingRK45(self.base):
+            def __init__(self, *a, **k):
+                super().__init__(*a, **k)
+                self._wg_id = len(log.steps)
+                log.steps[self._wg_id] = []
+
+            def step(self):
+                out = super().step()
+                log.steps[self._wg_id].append(float(self.t))
+                return out
+
+        si.RK45 = LoggingRK45
+        return self
+
+    def __exit__(self, *exc):
+        self.si.RK45 = self.base
+        return False
+
+
+N_SCRATCH = 14
+
+
+def _place_ends(pot, Tn, guess, ends, dT, tr, first, want):
+    """Move the requested ends onto / next to a step of the tracer.
+
+    The accepted steps are read off a *scratch* FreeEnergy traced over T_n -+ 14 dT with the
+    same settings (RK45's ramp-up from its first step to max_step = dT; each integration
+    direction is its own RK45 and does not depend on the far end).  Once three consecutive
+    steps equal dT the remaining ones are T + k dT, accumulated in the solver's own floating
+    point order.  Whether the placement was achieved is read off the finished table
+    afterwards (build_direct), never assumed."""
+    import WallGo
+    info = {}
+    scratch = WallGo.FreeEnergy(pot, Tn, WallGo.Fields(guess))
+    try:
+        with _StepLog() as log:
+            scratch.tracePhase(Tn - N_SCRATCH * dT, Tn + N_SCRATCH * dT, dT, rTol=tr["rTol"],
+                               paranoid=tr["paranoid"], phaseTracerFirstStep=first)
+    except Exception as exc:      # noqa: BLE001 - e.g. a spinodal within 14 dT
+        for side in ("lo", "hi"):
+            if want.get(side):
+                info[side] = {**want[side], "status": "scratch-trace-raised:" + repr(exc)[:80]}
+        return ends, info
+    out = list(ends)
+    for j, side, integ, sgn in ((1, "hi", 0, 1.0), (0, "lo", 1, -1.0)):
+        w = want.get(side)
+        if not w:
+            continue
+        st = log.steps.get(integ, [])[:-1]          # the last one is the scratch range end
+        d = np.abs(np.diff(st[-4:]))
+        if len(st) < 5 or not np.all(np.abs(d / dT - 1.0) < 1e-9):
+            info[side] = {**w, "status": "ramp-up-not-finished-within-scratch-range"}
+            continue
+        # last step t_k with t_k + r dT not beyond the nominal end, minus 'back' steps
+        t, hist = st[-1], []
+        while sgn * ((t + sgn * dT) + sgn * w["r"] * dT - ends[j]) <= 0 and len(hist) < 10000:
+            t = t + sgn * dT
+            hist.append(t)
+        if len(hist) < 4 + w["back"]:
+            info[side] = {**w, "status": "range-too-short"}
+            continue
+        t = hist[-1 - w["back"]]
+        out[j] = float(t + sgn * w["r"] * dT if w["kind"] == "beyond" else
+                       (t if w["kind"] == "on" else t - sgn * w["r"] * dT))
+        info[side] = {**w, "status": "placed", "step": float(t), "end": out[j],
+                      "nominal_end": float(ends[j]), "steps_from_Tn": len(st) + len(hist) - w["back"]}
+    return out, info
 
 
 def build_manager(case):
@@ -473,8 +606,9 @@ def run_case(case):
     # ---------------------------------------------------------------- construction
     manager = None
     try:
+        placed = {}
         if route == "direct":
-            pot, th, Tn, rtol = build_direct(case)
+            pot, th, Tn, rtol, placed = build_direct(case)
         else:
             pot, th, Tn, rtol, manager = build_manager(case)
     except Exception as exc:      # noqa: BLE001
@@ -521,6 +655,9 @@ def run_case(case):
              "epsilon": [float(getattr(th, "epsilonMin" + sfx)),
                          float(getattr(th, "epsilonMax" + sfx))],
              "Tn_in_range": bool(TMin <= Tn <= TMax)}
+        if pt.get("stored_V_mismatch"):
+            d["stored_V_mismatch"] = pt["stored_V_mismatch"]
+            classes.append("table-V-column-not-potential-at-row(judged)")
         info[phase] = d
         if pt["status"] == "hop":
             classes.append("inadmissible(P_trace):hop")
@@ -556,6 +693,27 @@ def run_case(case):
                         "mon": mon, "inconclusive": f"closed-form self-check failed {sc}"}
             d["model"] = EX.SplineErrorModel(pot, phase, knots, pt["nu"])
     obs["Tn"] = Tn
+    # requested ends placed relative to the tracer's steps: achieved or not is read off the
+    # finished table (last abscissa gap), and only phases that are judged are counted
+    obs["placed"] = placed
+    for phase, sides in placed.items():
+        for side, pl in sides.items():
+            g = pl.get("last_gap_over_dT_minus_1")
+            if pl.get("status") != "placed" or g is None:
+                classes.append(f"end-placed:{pl['kind']}:{pl.get('status', '?').split(':')[0]}")
+                continue
+            ok = pl["table_reaches_end"] and (
+                (1e-6 < g < 1e-2 and abs(g / pl["r"] - 1) < 1e-3) if pl["kind"] == "beyond" else
+                (abs(g) < 1e-10) if pl["kind"] == "on" else (abs(g / -pl["r"] - 1) < 1e-3))
+            pl["achieved"] = bool(ok)
+            if not ok:
+                classes.append(f"end-placed:{pl['kind']}:not-achieved")
+            elif "knots" in info[phase]:
+                classes.append(f"end-placed:{pl['kind']}")
+                classes.append(f"end-placed:{pl['kind']}:{phase}:{side}")
+                mon["ends_placed_" + pl["kind"]] = mon.get("ends_placed_" + pl["kind"], 0) + 1
+            else:
+                classes.append(f"end-placed:{pl['kind']}:phase-not-judged")
 
     # ------------------------------------------------------- contract events (real calls)
     for ev in events:
@@ -723,7 +881,9 @@ def run_case(case):
                           f"{phase}-T phase, T={T!r} inside [{TMin!r},{TMax!r}]: p={q['p']!r} but "
                           f"-V at the closed-form minimum is {float(ex['p'][0])!r} (rel diff "
                           f"{abs(q['p'] - float(ex['p'][0])) / Vs:.3e}, tol {tol_p / Vs:.1e}; "
-                          f"{fam}, {route})", {**ctx, **q, "exact": float(ex["p"][0])})
+                          f"{fam}, {route})" + _stored_note(d),
+                          {**ctx, **q, "exact": float(ex["p"][0]),
+                           "stored_V_mismatch": d.get("stored_V_mismatch")})
                 r = abs(q["dp"] - float(ex["dp"][0])) / tol_dp
                 tally.add("exact:dp" + tb, r)
                 tally.add("exact:ddp/model(not judged)" + tb, abs(q["ddp"] - float(ex["ddp"][0]))
@@ -744,8 +904,9 @@ def run_case(case):
                     V.add(f"dp-off-closed-form:{phase}", r,
                           f"{phase}-T phase, T={T!r} inside the range: dp={q['dp']!r}, closed form "
                           f"{float(ex['dp'][0])!r} (diff {abs(q['dp'] - float(ex['dp'][0])):.3e}, "
-                          f"spline-error model {tol_dp:.1e})",
-                          {**ctx, **q, "exact": float(ex["dp"][0])})
+                          f"spline-error model {tol_dp:.1e})" + _stored_note(d),
+                          {**ctx, **q, "exact": float(ex["dp"][0]),
+                           "stored_V_mismatch": d.get("stored_V_mismatch")})
                 tally.add("exact:ddp rel.err(not judged)" + tb,
                           abs(q["ddp"] - float(ex["ddp"][0])) / abs(float(ex["ddp"][0])))
 
@@ -867,6 +1028,14 @@ def run_case(case):
         obs["vJ"] = float(getattr(manager.hydrodynamics, "vJ", float("nan")))
     return {"key": key0, "cls": sorted(set(classes)), "nontrivial": bool(keys), "obs": obs,
             "viol": V.list(), "mon": mon, "keys": keys}
+
+
+def _stored_note(d):
+    sm = d.get("stored_V_mismatch")
+    if not sm:
+        return ""
+    return (f"; the table row T={sm['T']!r} stores V={sm['stored']!r} but the potential at the "
+            f"tabulated point is {sm['V_at_row']!r} (rel {sm['rel']:.1e})")
 
 
 def _end_overflows(d, end, V, mon, fam, route):
